@@ -252,3 +252,61 @@ func VerifHarness_C06_O3() {
 	full.checkInvariants(0)
 	verifReach("end")
 }
+
+// C06/O4 — an idle period, then a burst from a validator that goes silent.
+// After a warm-up the four validators gossip fairly without submissions until
+// everybody is idle (heads of the peers are then parked, not recorded).
+// Validator 3 accepts a transaction and records it while pulling from q1
+// (optionally pulls once more, from q2); validator X pulls from 3 exactly once
+// (with or without a transaction of its own) and 3 falls silent for good.
+// Fair phase among 0,1,2 and the C06 oracle.
+func VerifHarness_C06_O4() {
+	s := verifNewSys(4)
+	for st := 0; st < 8; st++ {
+		to := st % 4
+		from := (to + 1 + (st/4)%3) % 4
+		if err := s.pull(from, to, -1); err != nil {
+			panic(fmt.Sprintf("warm-up step %d: %v", st, err))
+		}
+	}
+	for c := 0; c < 12; c++ {
+		for to := 0; to < 4; to++ {
+			for from := 0; from < 4; from++ {
+				if from != to {
+					if err := s.pullTx(from, to, -1, false); err != nil {
+						panic(fmt.Sprintf("quiet cycle %d (%d<-%d): %v", c, to, from, err))
+					}
+				}
+			}
+		}
+	}
+	idle := true
+	for _, nd := range s.nodes {
+		if nd.c.busy() {
+			idle = false
+		}
+	}
+	if !idle {
+		verifAssume(false) // the quiet period did not reach the idle state within the bound
+	}
+	x := 0
+	if verifTier() > 0 {
+		x = verifChoice("puller", 3)
+	}
+	if len(s.nodes[x].c.heads) > 0 {
+		verifReach("idle-with-parked-heads")
+	}
+	if err := s.pullTx(verifChoice("q1", 3), 3, -1, true); err != nil {
+		panic(err)
+	}
+	if q2 := verifChoice("q2", 4); q2 < 3 {
+		if err := s.pullTx(q2, 3, -1, verifChoice("secondTransaction", 2) == 1); err != nil {
+			panic(err)
+		}
+	}
+	if err := s.pullTx(3, x, -1, verifChoice("pullerHasATransaction", 2) == 1); err != nil {
+		panic(err)
+	}
+	s.fairPhaseAndCheck([]int{0, 1, 2}, 12)
+	verifReach("end")
+}
